@@ -34,3 +34,12 @@ impl Interner<TokenKey> for UserInterner {
         Ok(TokenKey::try_from_u32(i).unwrap())
     }
 }
+
+/// A shareable resolver over any resolver (the trees of one case all use the same interner).
+#[derive(Debug)]
+pub struct Shared<R>(pub std::sync::Arc<R>);
+impl<R: Resolver<TokenKey>> Resolver<TokenKey> for Shared<R> {
+    fn try_resolve(&self, key: TokenKey) -> Option<&str> {
+        self.0.try_resolve(key)
+    }
+}
